@@ -9,7 +9,7 @@ vars == << kind, T, mn, mx, conv, t, pc, halted >>
 
 BoolSeqs(n) == [ 1..n -> BOOLEAN ]
 Init == /\ kind \in {"time", "energy", "detector"}
-        /\ T \in 1..MaxT /\ mn \in 0..MaxT /\ mx \in 0..(MaxT + 1) /\ mn <= mx
+        /\ T \in 1..MaxT /\ mn \in 0..MaxT /\ mx \in 0..(MaxT + 1)      \* min_steps > max_steps allowed: max wins
         /\ conv \in BoolSeqs(T + 1)
         /\ (kind = "time" => mn = 0 /\ mx = T /\ conv = [ i \in 1..(T + 1) |-> FALSE ])
         /\ t = 0 /\ pc = "check" /\ halted = FALSE
@@ -26,6 +26,6 @@ Spec == Init /\ [][Next]_vars
 HaltsAtFirstStop == halted => t = Halt(kind, T, mn, mx, conv, MaxRule)
 NeverLate  == t <= Min2(mx, T) \/ kind = "time"
 NeverLateTime == t <= T
-NeverEarly == (halted /\ kind # "time") => t >= Min2(mn, T)
+NeverEarly == (halted /\ kind # "time") => t >= Min2(mn, Min2(mx, T))
 NoStepAfterStop == [][halted => t' = t]_vars
 =============================================================================
